@@ -267,6 +267,7 @@ func init() {
 		Once:  c18Once,
 		Cases: func(c *mon.Ctx) int { return len(c18Names) },
 		RunCase: func(c *mon.Ctx, i int) {
+			disturb(c, i)
 			if !c.Thorough() && i%4 != int(uint64(c.Seed)%4) {
 				return
 			}
@@ -404,6 +405,7 @@ func init() {
 			ev.Coverage["tlds_in_certificates"] = r.SetSize("tlds_in_certificates")
 			ev.Coverage["lint_outcomes"] = r.Sets["lint_outcomes"]
 			ev.Coverage["exhaustive"] = true
+			ev.Coverage["unrelated_objects_linted_before_and_between_cases"] = r.Counters["disturbance_objects_linted"]
 			ev.Coverage["generator_run"] = r.Notes["generator_run"]
 			if r.Counters["generator_documents"] == 0 {
 				gates = append(gates, "the table-generator monitor did not run (see inconclusive)")
